@@ -210,11 +210,13 @@ func c08CheckOne(fnName string, lexeme []byte, p int, spare bool, scratch []byte
 		return res, fmt.Sprintf("result longer than input (%d > %d)", len(res), n)
 	}
 	out = append([]byte{}, res...)
-	in, ok := parseNumberLexeme(lexeme, fnName == "Number")
+	// Decimal never *introduces* an exponent; an input that already has one keeps the full grammar
+	allowExp := fnName == "Number" || bytes.ContainsAny(lexeme, "eE")
+	in, ok := parseNumberLexeme(lexeme, allowExp)
 	if !ok {
 		return out, "" // outside the grammar: only totality/canary apply
 	}
-	o, ok := parseNumberLexeme(out, fnName == "Number")
+	o, ok := parseNumberLexeme(out, allowExp)
 	if !ok {
 		return out, "result is not a valid number of the grammar"
 	}
@@ -393,9 +395,7 @@ func C08(run *core.Run) {
 				for _, lex := range batch {
 					hasExp := bytes.IndexAny(lex, "eE") >= 0
 					for _, fn := range []string{"Number", "Decimal"} {
-						if fn == "Decimal" && hasExp {
-							continue
-						}
+						_ = hasExp
 						nt := false
 						for _, p := range c08Precs {
 							for _, spare := range []bool{false, true} {
@@ -463,7 +463,7 @@ func C08(run *core.Run) {
 	run.Set("calls_where_precision_changed_text", rounded)
 	run.Set("precisions", c08Precs)
 	run.Sample(map[string]interface{}{"kind": "exhaustive", "example": "-.0450E+19", "alphabet": "0 1 4 5 9 + - . e E"})
-	run.Finish(fmt.Sprintf("every lexeme of [+-]?(d+.?d*|.d+)([eE][+-]?d+)? with length<=%d over digits {0,1,4,5,9} (exhaustive) plus seeded random lexemes up to 400 digits with exponents up to 2^63, each through Number and Decimal (Decimal: exponent-free only) at 22 precisions, with and without spare capacity; a case is (helper, lexeme); non-trivial = the helper changed the text for at least one precision", L), []string{
+	run.Finish(fmt.Sprintf("every lexeme of [+-]?(d+.?d*|.d+)([eE][+-]?d+)? with length<=%d over digits {0,1,4,5,9} (exhaustive) plus seeded random lexemes up to 400 digits with exponents up to 2^63, each through Number and Decimal (which must not introduce an exponent into an exponent-free lexeme) at 22 precisions, with and without spare capacity; a case is (helper, lexeme); non-trivial = the helper changed the text for at least one precision", L), []string{
 		"math/big is the arithmetic oracle",
 		"half-unit tolerance computed from the input's leading digit position; Decimal never removes integer digits",
 	}, 1000, false)
